@@ -426,7 +426,7 @@ func init() {
 				Desc: "branches with different static attribute prefixes (symbolic): join records the ambiguity and an action after it is refused in URL and enumerated attributes, whichever prefix was kept"},
 			{Pkg: "safehtml", Name: "vHarness_C12_sanitized", Quick: []ParamRange{{"ascii", 1, 1}, {"n", 0, 4}}, Thorough: []ParamRange{{"ascii", 1, 1}, {"n", 0, 6}},
 				Desc: "srcset candidates (the sanitizer behind _sanitizeURLSet): every candidate the WHATWG srcset parser finds in URLSetSanitized(s) has a URL that URLSanitized leaves unchanged"},
-			{Pkg: "template", Name: "vHarness_C01_text", Quick: []ParamRange{{"pre", 5, 5}, {"n", 8, 8}}, Thorough: []ParamRange{{"pre", 5, 5}, {"n", 7, 9}},
+			{Pkg: "template", Name: "vHarness_C01_text", Quick: []ParamRange{{"pre", 5, 5}, {"n", 8, 8}}, Thorough: []ParamRange{{"pre", 5, 5}, {"n", 7, 8}},
 				Desc: "where a script/style body ends: the escaper's context after a style-body text agrees with the HTML tokenizer (an action after a miscounted end tag would be sanitized as HTML text inside the element)"},
 			{Pkg: "safehtml", Name: "vHarness_C11_sound", Quick: []ParamRange{{"ascii", 1, 1}, {"n", 8, 13}}, Thorough: []ParamRange{{"ascii", 1, 1}, {"n", 0, 16}},
 				Desc: "the URL sanitizer behind _sanitizeURL: an accepted ASCII string (lengths around \"javascript:\") has no javascript scheme under the WHATWG scanner"},
@@ -477,15 +477,21 @@ func init() {
 			{Pkg: "template", Name: "vHarness_C01_loopexit", Quick: []ParamRange{{"kind", 0, 1}, {"prefix", 0, 5}, {"n0", 0, 0}, {"n1", 0, 3}, {"n2", 0, 1}, {"n3", 0, 1}, {"n4", 0, 0}, {"nd", 1, 1}},
 				Thorough: []ParamRange{{"kind", 0, 1}, {"prefix", 0, 11}, {"n0", 0, 1}, {"n1", 0, 3}, {"n2", 0, 2}, {"n3", 0, 1}, {"n4", 0, 1}, {"nd", 1, 1}}, Reach: []string{"rejected"}, Eager: true,
 				Desc: "loop exits: P T0 {{range .}}T1{{if .}}{{break|continue}}{{end}}T2{{end}} T3 {{.}} T4 - the escaper refuses the node (panic, nothing executed) or the output after an early exit has the same token stream for an inert and a symbolic data value"},
-			{Pkg: "template", Name: "vHarness_C01_call", Quick: []ParamRange{{"prefix", 0, 6}, {"rec", 0, 1}, {"mid", 0, 1}, {"twice", 0, 1}, {"n0", 0, 0}, {"n1", 0, 1}, {"n2", 0, 1}, {"n5", 0, 1}, {"n3", 0, 0}, {"n4", 0, 2}, {"nd", 1, 1}},
-				Thorough: []ParamRange{{"prefix", 0, 6}, {"rec", 0, 1}, {"mid", 0, 1}, {"twice", 0, 1}, {"n0", 0, 1}, {"n1", 0, 2}, {"n2", 0, 2}, {"n5", 0, 1}, {"n3", 0, 1}, {"n4", 0, 2}, {"nd", 1, 1}}, Reach: []string{"accepted", "rejected"}, Eager: true,
+			{Pkg: "template", Name: "vHarness_C01_call", Quick: []ParamRange{{"prefix", 0, 6}, {"rec", 0, 1}, {"mid", 0, 1}, {"twice", 0, 1}, {"n0", 0, 0}, {"n1", 0, 1}, {"n2", 0, 1}, {"n5", 0, 1}, {"n6", 0, 0}, {"n3", 0, 0}, {"n4", 0, 2}, {"nd", 1, 1}},
+				Thorough: []ParamRange{{"prefix", 0, 6}, {"rec", 0, 1}, {"mid", 0, 1}, {"twice", 0, 1}, {"n0", 0, 1}, {"n1", 0, 2}, {"n2", 0, 2}, {"n5", 0, 1}, {"n6", 0, 0}, {"n3", 0, 1}, {"n4", 0, 2}, {"nd", 1, 1}}, Reach: []string{"accepted", "rejected"}, Eager: true,
 				Filter: func(p map[string]int) bool {
 					return (p["mid"] == 0 || (p["prefix"] >= 2 && p["prefix"] <= 4)) && (p["twice"] == 0 || p["mid"] == 0) && p["n0"]+p["n1"]+p["n2"]+p["n5"]+p["n3"]+p["n4"] <= 4
 				},
 				Desc: "composition over template calls: the real escapeTree / computeOutCtx / escapeTemplateBody (derived templates per start context, fixed-point rule for recursion) over main = P T0 {{template \"y\"}} T3 {{.}} T4 and y = T1 [{{if}}{{template \"y\"}}{{end}}] T2 M T5; the output assembled from the trees the escaper produced, for recursion depths 0..2, has the same token stream for an inert and a symbolic data value"},
-			{Pkg: "template", Name: "vHarness_C01_call", Quick: []ParamRange{{"prefix", 0, 0}, {"rec", 0, 0}, {"mid", 1, 1}, {"twice", 1, 1}, {"n0", 0, 0}, {"n1", 0, 0}, {"n2", 2, 2}, {"n5", 1, 1}, {"n3", 2, 2}, {"n4", 2, 2}, {"nd", 1, 1}},
-				Thorough: []ParamRange{{"prefix", 0, 1}, {"rec", 0, 1}, {"mid", 1, 1}, {"twice", 1, 1}, {"n0", 0, 0}, {"n1", 0, 1}, {"n2", 2, 2}, {"n5", 1, 1}, {"n3", 2, 2}, {"n4", 2, 2}, {"nd", 1, 1}}, Eager: true,
+			{Pkg: "template", Name: "vHarness_C01_call", Quick: []ParamRange{{"prefix", 0, 0}, {"rec", 0, 0}, {"mid", 1, 1}, {"twice", 1, 1}, {"n0", 0, 0}, {"n1", 0, 0}, {"n2", 2, 2}, {"n5", 1, 1}, {"n6", 0, 0}, {"n3", 2, 2}, {"n4", 2, 2}, {"nd", 1, 1}},
+				Thorough: []ParamRange{{"prefix", 0, 1}, {"rec", 0, 1}, {"mid", 1, 1}, {"twice", 1, 1}, {"n0", 0, 0}, {"n1", 0, 1}, {"n2", 2, 2}, {"n5", 1, 1}, {"n6", 0, 0}, {"n3", 2, 2}, {"n4", 2, 2}, {"nd", 1, 1}}, Eager: true,
 				Desc: "a helper that opens a tag and an attribute (T2 \" title=\" T5), called twice from the same start context: the second call takes escapeTree's \"already escaped\" path"},
+			{Pkg: "template", Name: "vHarness_C01_call", Quick: []ParamRange{{"prefix", 0, 4}, {"rec", 2, 2}, {"mid", 0, 2}, {"twice", 0, 0}, {"n0", 0, 0}, {"n1", 0, 0}, {"n2", 0, 2}, {"n5", 0, 0}, {"n6", 0, 1}, {"n3", 0, 1}, {"n4", 0, 1}, {"nd", 1, 1}},
+				Thorough: []ParamRange{{"prefix", 0, 6}, {"rec", 2, 2}, {"mid", 0, 2}, {"twice", 0, 0}, {"n0", 0, 0}, {"n1", 0, 1}, {"n2", 0, 2}, {"n5", 0, 1}, {"n6", 0, 2}, {"n3", 0, 1}, {"n4", 0, 1}, {"nd", 1, 1}}, Eager: true,
+				Filter: func(p map[string]int) bool {
+					return p["n1"]+p["n2"]+p["n5"]+p["n6"]+p["n3"]+p["n4"] <= 4 && (p["mid"] != 1 || (p["prefix"] >= 2 && p["prefix"] <= 4)) && (p["mid"] != 2 || p["prefix"] <= 1)
+				},
+				Desc: "mutual recursion: y = T1 {{if}}{{template z}}{{end}} T2 M T5 and z = {{template y}} T6 (the fixed-point rule has to see the indirect self-call)"},
 			{Pkg: "template", Name: "vHarness_C01_shape", Quick: []ParamRange{{"prefix", 0, 11}, {"n0", 0, 1}, {"n1", 0, 1}, {"n2", 0, 1}, {"n3", 0, 1}, {"n4", 1, 1}, {"nd", 1, 1}},
 				Thorough: []ParamRange{{"prefix", 0, 11}, {"n0", 0, 1}, {"n1", 0, 2}, {"n2", 0, 1}, {"n3", 0, 2}, {"n4", 0, 2}, {"nd", 1, 2}}, Reach: []string{"accepted", "rejected"}, Eager: true,
 				Filter: func(p map[string]int) bool { return p["n0"]+p["n1"]+p["n2"]+p["n3"]+p["n4"] <= 4+2-p["nd"] },
@@ -513,16 +519,17 @@ func init() {
 		ID:    "C05",
 		Title: "Templates that cannot be contextualized never produce output (sticky) - bounded histories, executor stubbed",
 		Harnesses: []HarnessSpec{
-			{Pkg: "template", Name: "vHarness_C05_sticky", Quick: []ParamRange{{"prefix", 0, 9}, {"n0", 0, 1}, {"n1", 0, 2}}, Thorough: []ParamRange{{"prefix", 0, 11}, {"n0", 0, 2}, {"n1", 0, 3}}, Reach: []string{"analysis-failed", "executed", "tohtml-error"},
+			{Pkg: "template", Name: "vHarness_C05_sticky", Quick: []ParamRange{{"prefix", 0, 9}, {"n0", 0, 1}, {"n1", 0, 2}, {"n2", 0, 2}}, Thorough: []ParamRange{{"prefix", 0, 11}, {"n0", 0, 1}, {"n1", 0, 2}, {"n2", 0, 2}}, Reach: []string{"analysis-failed", "executed", "tohtml-error", "uncontextualizable", "caller-executed"},
+				Filter: func(p map[string]int) bool { return p["n1"] == 0 || p["n2"] == 0 || p["n1"]+p["n2"] <= 2 },
 				Desc: "two calls chosen symbolically among Execute, ExecuteTemplate, ExecuteToHTML, ExecuteTemplateToHTML on main = P T0 {{.M}} T1 (symbolic ASCII texts), ExecuteTemplate on a caller of main and on an unrelated template, with a data value that decides whether execution fails at run time: once main's analysis has failed every later call on it or on its caller returns an error and writes nothing, its parse tree is gone, and the ToHTML variants return the zero HTML whenever they return an error"},
-			{Pkg: "template", Name: "vHarness_C08_history", Quick: []ParamRange{{"prefix", 0, 9}, {"n0", 0, 1}, {"n1", 0, 2}, {"n2", 0, 0}, {"n3", 0, 0}}, Thorough: []ParamRange{{"prefix", 0, 11}, {"n0", 0, 2}, {"n1", 0, 3}, {"n2", 0, 2}, {"n3", 0, 0}}, Reach: []string{"analysed", "failed"},
+			{Pkg: "template", Name: "vHarness_C08_history", Quick: []ParamRange{{"prefix", 0, 9}, {"n0", 0, 1}, {"n1", 0, 1}, {"n2", 0, 2}, {"n3", 0, 0}}, Thorough: []ParamRange{{"prefix", 0, 11}, {"n0", 0, 1}, {"n1", 0, 2}, {"n2", 0, 2}, {"n3", 0, 0}}, Reach: []string{"analysed", "failed"},
 				Desc: "the analysis half below the entry points: lookupAndEscapeTemplate / escape() histories (a failed analysis stays failed, drops the parse tree, and a caller of the failed template is not accepted)"},
 		},
 		Probes:    []ProbeSpec{},
 		Functions: []string{"template.(*Template).Execute, ExecuteTemplate, ExecuteToHTML, ExecuteTemplateToHTML, escape, lookupAndEscapeTemplate", "template.escapeTemplate, (*escaper).escapeTree, computeOutCtx, escapeTemplateBody, escapeList, escapeAction, escapeText, commit", "text/template New / AddParseTree / Lookup (stdlib SSA)", "uncheckedconversions.HTMLFromStringKnownToSatisfyTypeContract"},
 		Bounds: map[string]string{
-			"quick":    "histories of 2 calls over 6 operations; 10 concrete prefixes; texts T0 0..1 and T1 0..2 symbolic ASCII bytes; one symbolic run-time-failure flag",
-			"thorough": "12 prefixes; T0 0..2, T1 0..3",
+			"quick":    "histories of 2 calls over 6 operations; 10 concrete prefixes; texts T0 0..1, T1 0..2 and (the caller's) T2 0..2 symbolic ASCII bytes; one symbolic run-time-failure flag; whether main / its caller can be contextualized is decided on fresh copies of the set",
+			"thorough": "12 prefixes; T0 0..1, T1 0..2, T2 0..2",
 		},
 		Outside: []string{"text/template's executor is NOT encoded: it is a stub with the contract 'no parse tree => error and nothing written; otherwise arbitrary output, run-time error iff the data value requests it' - that the real executor honours this contract (and that its output is what the tree says) is assumed",
 			"histories longer than 2 calls; New / Clone / Parse* / Lookup interleavings; template sets other than main + one caller + one unrelated template; failure causes are those reachable with one text, one action, one text (non-text end context, action in a disallowed position, unsafe URL prefix) - undefined callees and recursive contexts are covered only by the C01/C08 harnesses' rejected paths",
@@ -534,14 +541,14 @@ func init() {
 		ID:    "C06",
 		Title: "Execution results depend only on definitions, name and data, not on history - analysis half: each action is rewritten exactly once",
 		Harnesses: []HarnessSpec{
-			{Pkg: "template", Name: "vHarness_C06_order", Quick: []ParamRange{{"n0", 0, 2}}, Thorough: []ParamRange{{"n0", 0, 4}}, Reach: []string{"text-use", "attr-use"},
-				Desc: "three calls chosen symbolically among lookupAndEscapeTemplate(a | b | h) over h = T0 {{.}}, a = <p>{{template h}}, b = <p title=\"{{template h}}\"> with the real commit rewriting the trees: afterwards the pipeline of the action in h and in the copy derived for the attribute context is the original command followed by exactly the sanitizer chain of its context"},
+			{Pkg: "template", Name: "vHarness_C06_order", Quick: []ParamRange{{"n0", 0, 1}, {"calls", 3, 4}}, Thorough: []ParamRange{{"n0", 0, 3}, {"calls", 1, 4}}, Reach: []string{"text-use", "attr-use"},
+				Desc: "3 or 4 calls chosen symbolically among lookupAndEscapeTemplate of six templates (a helper h = T0 {{.}}, two element-content callers, an attribute-value caller, a template that cannot be contextualized, and a failing caller of h that leaves edits pending) with the real commit rewriting the trees: failing templates fail, the others are accepted, and afterwards the pipeline of the action in h and in the copy derived for the attribute context is the original command followed by exactly the sanitizer chain of its context"},
 		},
 		Probes:    []ProbeSpec{},
 		Functions: []string{"template.(*Template).lookupAndEscapeTemplate, escapeTemplate, (*escaper).escapeTree (derived templates, parse.Tree.Copy), computeOutCtx, escapeAction, commit, ensurePipelineContains, newIdentCmd", "template.sanitizerForContext (reference chain for the action's context)", "text/template New / AddParseTree / Lookup (stdlib SSA)"},
 		Bounds: map[string]string{
-			"quick":    "all orders of 3 calls over {a, b, h}; T0 0..2 symbolic ASCII bytes that stay inside the attribute value",
-			"thorough": "T0 0..4",
+			"quick":    "all sequences of 3 and of 4 calls over the six templates; T0 0..1 symbolic ASCII bytes that stay inside the attribute value",
+			"thorough": "sequences of 1..4 calls; T0 0..3",
 		},
 		Outside: []string{"the bytes written by Execute (text/template's executor is not encoded): the claim is about the rewritten pipelines, from which the written bytes follow only by argument",
 			"sets other than one helper shared by a text-context and an attribute-context caller; URL, script and style contexts for the second use; histories longer than 3 calls; repeated Execute calls with data"},
@@ -552,7 +559,7 @@ func init() {
 		ID:    "C08",
 		Title: "Template API totality, reduced to the byte-level kernels: no panic, bounded loops",
 		Harnesses: []HarnessSpec{
-			{Pkg: "template", Name: "vHarness_C08_history", Quick: []ParamRange{{"prefix", 0, 9}, {"n0", 0, 1}, {"n1", 0, 2}, {"n2", 0, 2}, {"n3", 0, 2}}, Thorough: []ParamRange{{"prefix", 0, 11}, {"n0", 0, 2}, {"n1", 0, 3}, {"n2", 0, 2}, {"n3", 0, 2}}, Reach: []string{"analysed", "failed", "caller-analysed", "derived-analysed"},
+			{Pkg: "template", Name: "vHarness_C08_history", Quick: []ParamRange{{"prefix", 0, 9}, {"n0", 0, 1}, {"n1", 0, 2}, {"n2", 0, 2}, {"n3", 0, 2}}, Thorough: []ParamRange{{"prefix", 0, 11}, {"n0", 0, 1}, {"n1", 0, 2}, {"n2", 0, 2}, {"n3", 0, 2}}, Reach: []string{"analysed", "failed", "caller-analysed", "derived-analysed"},
 				Filter: func(p map[string]int) bool { return p["n2"] == 0 || p["n3"] == 0 },
 				Desc: "bounded call histories: two calls chosen symbolically among lookupAndEscapeTemplate(main | incomplete | undefined), escape() and Lookup over a hand-built set with symbolic ASCII texts: every call returns, the name-space mutex is free afterwards (a second Lock on a held mutex is reported as a deadlock), a failed analysis stays failed and drops the parse tree"},
 			{Pkg: "template", Name: "vHarness_C08_text", Quick: []ParamRange{{"elem", 0, 8}, {"attr", 0, 1}, {"n", 0, 3}}, Thorough: []ParamRange{{"elem", 0, 8}, {"attr", 0, 5}, {"n", 0, 5}}, Reach: []string{"ran"},
